@@ -55,54 +55,88 @@ def truncate_shape(cx):
     cx.check(ok, "append-case", "when the entries continue the tail nothing is truncated")
 
 
-@obligation("LOGGUARD.unstable_queries", ["C05", "C14"], floor=3, kind="return shape",
+@obligation("LOGGUARD.unstable_queries", ["C05", "C14"], floor=3, kind="return shape (decision table)",
             why="the unstable part answers term/first/last for the snapshot point and the unstable suffix; a wrong seam returns a stale or missing term")
 def unstable_queries(cx):
-    f = cx.fn("Unstable::maybe_first_index")
-    rets = cx.pg(f).returns()
-    ok = len(rets) == 1 and rets[0][1][0] == "call" and rets[0][1][1].endswith("Option::map") and is_f(rets[0][1][2][0], "Unstable.snapshot")
-    if ok:
-        r = closure_returns(cx.prog, rets[0][1][2][1][1]) if rets[0][1][2][1][0] == "closure" else None
-        ok = bool(r) and len(r) == 1 and match(("bin", "Add", alt(fld("SnapshotMetadata.index"), ("int", 1)), alt(fld("SnapshotMetadata.index"), ("int", 1))), r[0][1]) is not None
-    cx.check(ok, "maybe_first_index", "maybe_first_index() = pending snapshot's index + 1, if any")
-    f = cx.fn("Unstable::maybe_last_index")
-    rets = cx.pg(f).returns()
-    ok = len(rets) == 2
-    for lits, v, _ in rets:
-        empty = any(l[0] == "in" and l[2] == frozenset([0]) for l in lits)
-        if empty:
-            okv = v[0] == "call" and v[1].endswith("Option::map") and is_f(v[2][0], "Unstable.snapshot")
-            if okv and v[2][1][0] == "closure":
-                r = closure_returns(cx.prog, v[2][1][1])
-                okv = bool(r) and len(r) == 1 and is_f(r[0][1], "SnapshotMetadata.index")
-            ok = ok and okv
+    from ..idioms import decision_table, some_payload, NONE
+    SNAP = "Unstable.snapshot"
+
+    def snap_is(l, v):
+        return l[0] == "in" and is_f(l[1], SNAP) and l[2] == frozenset([v])
+
+    def table(name):
+        return decision_table(cx.prog, cx.fn(name))
+
+    def shown(t):
+        return "; ".join("%s if %s" % (show(v)[:50], [show_lit(l)[:40] for l in lits]) for lits, v in t)[:400]
+    # maybe_first_index() = Some(snapshot.index + 1) iff a snapshot is pending
+    t = table("Unstable::maybe_first_index")
+    ok = bool(t)
+    for lits, v in t:
+        p = some_payload(v)
+        if any(snap_is(l, "Some") for l in lits):
+            ok = ok and p is not None and match(("bin", "Add", alt(fld("SnapshotMetadata.index"), ("int", 1)), alt(fld("SnapshotMetadata.index"), ("int", 1))), p) is not None
+        elif any(snap_is(l, "None") for l in lits):
+            ok = ok and v == NONE
         else:
-            b = v[0] == "adt" and v[1].endswith("Option::Some") and v[2][0][1]
-            okv = bool(b) and b[0] == "bin" and b[1] == "Sub" and b[3] == ("int", 1) and contains(fld("Unstable.offset"), b[2]) and "len" in show(b[2])
-            ok = ok and okv
-    cx.check(ok, "maybe_last_index", "maybe_last_index() = offset + len - 1 if there are unstable entries, else the pending snapshot's index")
-    f = cx.fn("Unstable::maybe_term")
-    rets = cx.pg(f).returns()
-    below = [(lits, v) for lits, v, _ in rets if any(l[0] == "is" and l[2] is True and l[1][0] == "bin" and l[1][1] == "Lt" and l[1][2][0] == "param" and is_f(l[1][3], "Unstable.offset") for l in lits)]
-    above = [(lits, v) for lits, v, _ in rets if any(l[0] == "is" and l[2] is False and l[1][0] == "bin" and l[1][1] == "Lt" and l[1][2][0] == "param" and is_f(l[1][3], "Unstable.offset") for l in lits)]
-    ok = bool(below) and bool(above)
-    for lits, v in below:
-        if v[0] == "adt" and v[1].endswith("Option::Some"):
-            ok = ok and is_f(v[2][0][1], "SnapshotMetadata.term") and any(l[0] == "is" and l[2] is True and l[1][0] == "bin" and l[1][1] == "Eq" and contains(fld("SnapshotMetadata.index"), l[1]) for l in lits)
-    cx.check(ok, "maybe_term:below", "below the offset only the pending snapshot's own index has a term (its term)")
-    okA = False
-    for lits, v in above:
-        if v[0] == "call" and v[1].endswith("and_then") and v[2][1][0] == "closure":
-            r = closure_returns(cx.prog, v[2][1][1]) or []
-            somes = [(l2, x) for l2, x, _ in r if x[0] == "adt" and x[1].endswith("Option::Some")]
-            nones = [(l2, x) for l2, x, _ in r if x == ("enum", "core::option::Option", "None")]
-            okA = bool(somes) and bool(nones)
-            for l2, x in somes:
-                t = x[2][0][1]
-                okA = okA and is_f(t, "Entry.term") and any(y[0] == "bin" and y[1] == "Sub" and y[2][0] == "upvar" and (is_f(y[3], "Unstable.offset") or contains(fld("Unstable.offset"), y[3])) for y in walk(t))
-            for l2, x in nones:
-                okA = okA and any(l[0] == "is" and l[2] is True and l[1][0] == "bin" and l[1][1] == "Lt" and l[1][2][0] == "param" and l[1][3][0] == "upvar" for l in l2)
-    cx.check(okA, "maybe_term:above", "at/above the offset the term is entries[idx - offset].term, and None beyond the last unstable index")
+            ok = False
+    cx.check(ok, "maybe_first_index", "maybe_first_index() = pending snapshot's index + 1, if any (found %s)" % shown(t))
+    # maybe_last_index() = offset + len - 1 with unstable entries, else the pending snapshot's index, else None
+    t = table("Unstable::maybe_last_index")
+    ok = bool(t)
+    kinds = set()
+    for lits, v in t:
+        p = some_payload(v)
+        empty = any(l[0] == "in" and l[2] == frozenset([0]) and "len" in show(l[1]) for l in lits) or any(l[0] == "is" and l[2] is True and l[1][0] == "call" and l[1][1].endswith("is_empty") for l in lits)
+        nonempty = any(l[0] == "notin" and 0 in l[2] and "len" in show(l[1]) for l in lits) or any(l[0] == "is" and l[2] is False and l[1][0] == "call" and l[1][1].endswith("is_empty") for l in lits)
+        if nonempty:
+            okv = p is not None and p[0] == "bin" and p[1] == "Sub" and p[3] == ("int", 1) and contains(fld("Unstable.offset"), p[2]) and "len" in show(p[2])
+            kinds.add("entries")
+        elif empty and any(snap_is(l, "Some") for l in lits):
+            okv = p is not None and is_f(p, "SnapshotMetadata.index")
+            kinds.add("snapshot")
+        elif empty and any(snap_is(l, "None") for l in lits):
+            okv = v == NONE
+            kinds.add("none")
+        else:
+            okv = False
+        ok = ok and okv
+    cx.check(ok and kinds == {"entries", "snapshot", "none"}, "maybe_last_index", "maybe_last_index() = offset + len - 1 if there are unstable entries, else the pending snapshot's index (found %s)" % shown(t))
+    # maybe_term(idx)
+    t = table("Unstable::maybe_term")
+
+    def below(l, want):
+        return l[0] == "is" and l[2] is want and l[1][0] == "bin" and l[1][1] == "Lt" and l[1][2][0] == "param" and is_f(l[1][3], "Unstable.offset")
+    def _is_last(e):
+        # exactly the payload of maybe_last_index(): (maybe_last_index() as Some).0
+        return e[0] == "vfield" and e[1][0] == "call" and e[1][1].endswith("maybe_last_index") and e[2].endswith("Option::Some")
+    lo = [(lits, v) for lits, v in t if any(below(l, True) for l in lits)]
+    hi = [(lits, v) for lits, v in t if any(below(l, False) for l in lits)]
+    ok = bool(lo) and len(lo) + len(hi) == len(t)
+    some_seen = False
+    for lits, v in lo:
+        p = some_payload(v)
+        at_snap = any(l[0] == "is" and l[2] is True and l[1][0] == "bin" and l[1][1] == "Eq" and contains(fld("SnapshotMetadata.index"), l[1]) and any(x[0] == "param" for x in l[1][2:4]) for l in lits)
+        if p is not None:
+            ok = ok and is_f(p, "SnapshotMetadata.term") and at_snap and any(snap_is(l, "Some") for l in lits)
+            some_seen = True
+        else:
+            ok = ok and v == NONE and not at_snap
+    cx.check(ok and some_seen, "maybe_term:below", "below the offset only the pending snapshot's own index has a term (its term) (found %s)" % shown(lo))
+    okA = bool(hi)
+    some_seen = none_seen = False
+    for lits, v in hi:
+        p = some_payload(v)
+        beyond = any(l[0] == "is" and l[2] is True and l[1][0] == "bin" and l[1][1] == "Lt" and l[1][3][0] == "param" and _is_last(l[1][2]) for l in lits)
+        within = any(l[0] == "is" and l[2] is False and l[1][0] == "bin" and l[1][1] == "Lt" and l[1][3][0] == "param" and _is_last(l[1][2]) for l in lits)
+        nolast = any(l[0] == "in" and l[2] == frozenset(["None"]) and l[1][0] == "call" and l[1][1].endswith("maybe_last_index") for l in lits)
+        if p is not None:
+            okA = okA and within and is_f(p, "Entry.term") and any(y[0] == "bin" and y[1] == "Sub" and y[2][0] == "param" and (is_f(y[3], "Unstable.offset") or contains(fld("Unstable.offset"), y[3])) for y in walk(p))
+            some_seen = True
+        else:
+            okA = okA and v == NONE and (beyond or nolast)
+            none_seen = none_seen or beyond
+    cx.check(okA and some_seen and none_seen, "maybe_term:above", "at/above the offset the term is entries[idx - offset].term, and None beyond the last unstable index (found %s)" % shown(hi))
 
 
 @obligation("VOTE.votes_cleared", ["C02"], floor=2, kind="must-pass-through",
@@ -138,20 +172,53 @@ def advance_shape(cx):
     f = cx.fn("ReadOnly::advance")
     pops = [c for c in cx.prog.all_calls if c.fn is f and c.data["callee"].endswith("VecDeque::pop_front")]
     cx.check(len(pops) == 1, "pop", "advance pops the queue at one site")
+    a_ = cx.prog.A(f)
+    SOME_ = "core::option::Option::Some"
+
+    def position_call(e):
+        """queue.iter().position(|x| x == ctx)"""
+        if not (e[0] == "call" and e[1].endswith("::position") and len(e[2]) == 2 and e[2][1][0] == "closure"):
+            return False
+        if not any(is_f(x, "ReadOnly.read_index_queue") for x in walk(a_.init_expr(e[2][0][1]) if e[2][0][0] == "local" and a_.init_expr(e[2][0][1]) else e[2][0])):
+            return False
+        r = closure_returns(cx.prog, e[2][1][1]) or []
+        return bool(r) and all(v[0] == "bin" and v[1] == "Eq" and any(x[0] == "upvar" for x in v[2:]) for _, v, _ in r)
+
+    def searched_slot(e):
+        """a local that is None, or Some(enumeration counter) assigned where the enumerated element equals ctx"""
+        if e[0] != "phi" or len(e[3]) != 2:
+            return False
+        alts = list(e[3])
+        if ("enum", "core::option::Option", "None") not in alts:
+            return False
+        sm = [x for x in alts if x[0] == "adt" and x[1] == SOME_]
+        if len(sm) != 1:
+            return False
+        cnt = sm[0][2][0][1]
+        if not (cnt[0] == "tfield" and cnt[2] == 0 and any(x[0] == "call" and "Enumerate" in x[1] and x[1].endswith("::next") for x in walk(cnt))):
+            return False
+        # the Some-assignment is guarded by `element == ctx`
+        for d in a_.defs[e[1]]:
+            if d[2] == "call":
+                continue
+            v = a_.expr_rvalue(d[3], (d[0], d[1]))
+            if v[0] == "adt" and v[1] == SOME_:
+                gl = cx.guard_lits(Site(f, d[0], d[1], "write"))
+                if not any(l[0] == "is" and l[2] is True and ((l[1][0] == "bin" and l[1][1] == "Eq") or (l[1][0] == "call" and "PartialEq" in l[1][1])) and any(x[0] == "param" for x in walk(l[1])) and any(x[0] == "call" and x[1].endswith("::next") for x in walk(l[1])) for l in gl):
+                    return False
+        return True
+
+    def ctx_slot(e):
+        return position_call(e) or searched_slot(e)
     pos = None
     for c in pops:
         def found(l):
-            return l[0] == "in" and l[2] == frozenset(["Some"]) and l[1][0] == "call" and l[1][1].endswith("::position")
+            return l[0] == "in" and l[2] == frozenset(["Some"]) and ctx_slot(l[1])
         require(cx, c, cx.site_key(c, "found"), "requests are released only if the acknowledged context is in the queue", found, kill=False)
         for l in cx.guard_lits(c):
             if found(l):
                 pos = l[1]
-    cx.check(pos is not None, "position", "the position of the context in the queue is looked up")
-    if pos is not None and pos[2][1][0] == "closure":
-        r = closure_returns(cx.prog, pos[2][1][1]) or []
-        vals = [v for _, v, _ in r]
-        ok = bool(vals) and all(v[0] == "bin" and v[1] == "Eq" and any(x[0] == "upvar" for x in v[2:]) for v in vals)
-        cx.check(ok, "position:ctx", "the looked-up element is the one equal to the given context")
+    cx.check(pos is not None, "position", "the position of the context in the queue is looked up (iter().position(..) or an enumerate loop that stops at the match)")
     # the loop runs 0..=position
     rng = [c for c in cx.prog.all_calls if c.fn is f and c.data["callee"].endswith("RangeInclusive::new")]
     ok = len(rng) == 1
